@@ -318,6 +318,19 @@ def pyGetIdx (v : Val) (e : EvalRes) : PyM (Val × Option Nat) :=
   | .str _, _ => .error .Unsupported
   | _, _ => .error .TypeError
 
+/-- the `found` text the `'..'` step continues with (`cur` = result of resolving the shortened path again):
+FOUND of an index step reports the path of the *list* and the index separately in `node_name_index`;
+`'..'` puts the index back (`f"{cur_found_xpath_str}[{cur_node_index}]"`, fix C06-b), so that a later `'..'`
+resolves this element again and not the whole list.  A key result already carries its name. -/
+def upFound (cur : Res) : Str :=
+  match cur.nameIdx with
+  | some ni =>
+    if ni.isEmpty then cur.found else
+    match splitNameIndex ni with
+    | .ok (cn, .str s) => if cn.isEmpty then cur.found ++ bracket s else cur.found
+    | _ => cur.found
+  | Option.none => cur.found
+
 mutual
 /-- `n0dict._find(self, xpath_list, parent_node, return_lists, xpath_found_str)`.
 `sp` is the position of `self` in the root; `ps` says that `self` is a plain `dict` (reached
@@ -386,9 +399,9 @@ def findD (fuel : Nat) (root : Val) (sp : Pos) (ps entry : Bool) (toks : List St
           if idx.truthy || rest.length ≥ 1 then
             if idx.truthy then
               match idx with
-              | .str s => findD fuel root sp ps false (bracket s :: rest) nxt rl cur.found
+              | .str s => findD fuel root sp ps false (bracket s :: rest) nxt rl (upFound cur)
               | _ => .error .Unsupported   -- f"[{tuple}]": repr of a tuple, not modelled
-            else findD fuel root sp ps false rest nxt rl cur.found
+            else findD fuel root sp ps false rest nxt rl (upFound cur)
           else
             match cur.nameIdx, valOf root nxt with
             | some ni, some nv =>
@@ -512,7 +525,7 @@ def findD (fuel : Nat) (root : Val) (sp : Pos) (ps entry : Bool) (toks : List St
             | .ok false => .ok (root, { parent := par, nameIdx := Option.none, value := Val.none, found := found, notFound := some (tok :: rest) })
       else
         match pv with
-        | .list _ (_ :: _) => findD fuel root sp ps false (bracket ['*'] :: tok :: rest) par rl found
+        | .list _ _ => findD fuel root sp ps false (bracket ['*'] :: tok :: rest) par rl found   -- an empty list too (fix C06-e)
         | .dict _ kvs =>
           match lookup k kvs with
           | Option.none => .ok (root, { parent := par, nameIdx := Option.none, value := Val.none, found := found, notFound := some (tok :: rest) })
